@@ -321,7 +321,7 @@ def parent_names_entry(run, twin=None):
     run.case = None
 
 
-@harness(['C05', 'C01', 'C10'], 'supp.scope.Flow.add_name', twins=('spec-global-also-local',))
+@harness(['C05', 'C01', 'C10', 'C02', 'C03', 'C13'], 'supp.scope.Flow.add_name', twins=('spec-global-also-local',))
 def add_name_routing(run, twin=None):
     """a binding of an identifier declared global goes to the module's global table and is not a local of the scope; one declared
     nonlocal is recorded in the region but is not a local either (reads before it resolve outward); anything else becomes a local
@@ -330,7 +330,8 @@ def add_name_routing(run, twin=None):
     run.concretise = scope_witness
     fl = Flags()
     inserted = []
-    f = loader.load('supp.scope', 'Flow.add_name', stubs={'insert_loc': lambda lst, x: inserted.append((lst, x))})
+    f = loader.load('supp.scope', 'Flow.add_name')
+    from supp.util import Location
 
     def body():
         assume(z3.Not(z3.And(fl.glob, fl.nonloc)))
@@ -346,15 +347,22 @@ def add_name_routing(run, twin=None):
             globals = SymSet(fl.glob, 'globals')
             nonlocals = SymSet(fl.nonloc, 'nonlocals')
 
-        class Name(object):
+        class Name(Location):
             name = KEY
 
         class Self(object):
             scope = Sc()
-            _names = ['the region list']
+            # the region's bindings, ordered by the position from which each is visible
+            _names = [Name((1, 0)), Name((3, 4)), Name((3, 9)), Name((5, 0))]
         del inserted[:]
-        nm = Name()
+        # bindings do not arrive in the order of their positions (the target of `x = (y := 1) + y` is registered before the walrus)
+        nm = Name([(0, 5), (3, 6), (3, 9), (4, 0), (9, 9)][core.choice(5)])
+        region = Self._names
         f(Self(), nm)
+        if len(region) == 5 and sum(1 for x in region if x is nm) == 1 and all(not (b < a) for a, b in zip(region, region[1:])):
+            inserted.append((region, nm))
+        elif len(region) != 4:
+            inserted.append((region, 'the region list is out of order or holds the binding twice'))
         return Self, nm, globs, Sc
 
     def on_path(p, out):
@@ -368,7 +376,9 @@ def add_name_routing(run, twin=None):
         is_local = KEY in Sc.locals.added
         gl = fl.glob if not twin else z3.BoolVal(False)
         prove('global-declared-goes-to-the-module-table', z3.BoolVal(to_global) == gl, path=p)
-        prove('recorded-in-the-region-unless-global', z3.BoolVal(to_region) == z3.Not(fl.glob), path=p)
+        prove('recorded-in-the-region-unless-global', z3.BoolVal(to_region) == z3.Not(fl.glob),
+              clause='unless declared global the binding is in the region list exactly once, and the list is still ordered by position whatever '
+                     'the order of arrival [%r]' % ([getattr(x, 'location', x) for x in Self._names],), path=p)
         prove('local-iff-neither-global-nor-nonlocal', z3.BoolVal(is_local) == z3.And(z3.Not(fl.glob), z3.Not(fl.nonloc)),
               clause='RI_locals: scope.locals == identifiers bound in the scope and declared neither global nor nonlocal', path=p)
     core.explore(body, on_path)
